@@ -34,7 +34,7 @@ def cases(max_ops):
 
 
 def build_mesh(case, cap, min_n):
-    live = Live(case['spec'])
+    live = Live(case['spec'], min_hx=1e-4)
     # a few uniform refinements first so that the matrix is not tiny
     for op in case['ops']:
         if op[0] == 't' or op[0] == 'tx':
